@@ -97,7 +97,12 @@ fn exchange(big: bool) -> BoxedStrategy<Exchange> {
         (any::<bool>(), prop_oneof![4 => Just(false), 1 => Just(true)], safe_path(), safe_query(), any::<bool>(), any::<bool>()),
         (gen::m_msg(2), 0u8..3, sizes(), sizes()),
     )
-        .prop_map(|((mut req, payload, headers, auth, timeout_ms), (scheme_ipp, localhost, path, query, async_client, async_payload), (resp, framing, chunks, frags))| {
+        .prop_map(move |((mut req, payload, headers, auth, timeout_ms), (scheme_ipp, localhost, path, query, async_client, async_payload), (mut resp, framing, chunks, frags))| {
+            if big {
+                // ... and a response whose trailing data goes beyond 1 MiB (sized from the request payload)
+                let n = 900_000 + payload.len() / 2;
+                resp.payload = (0..n).map(|i| (i as u8).wrapping_mul(31) ^ (i >> 11) as u8).collect();
+            }
             req.payload = payload;
             Exchange { req, headers, auth, timeout_ms, scheme_ipp, localhost, path, query, async_client, async_payload, resp, framing, chunks, frags }
         })
@@ -664,7 +669,7 @@ pub fn use_empty_trust_store() {
 
 pub fn run(ctx: &Ctx) {
     use_empty_trust_store();
-    ctx.set_rule("(a) proptest-generated exchanges against a hand-written loopback HTTP/1.1 server: request (generated model message + payload 0 B-256 KiB, MiB in the big sub-run, from a fragmented blocking or async source) x client configuration (0-4 custom x- headers, optional Basic credentials incl. non-ASCII and ':' in the password, optional timeout) x ipp:// or http:// target with generated path/query x blocking or async client x server script (content-length / chunked with generated chunk sizes / close-delimited framing, generated write fragmentation, generated response + trailing data encoded by the reference encoder). Oracle: the server recorded exactly one POST with the expected request-target, Host, Content-Type, every custom header, Authorization (own base64) and a de-framed body equal to to_bytes() ++ payload; the client returned exactly the server's response and trailing data. (b) failure scripts: every 4xx/5xx status with a valid success response as body, connection cut after every k in [0,L) body bytes under each framing with FIN and RST, stalled server with a 400 ms timeout answering after 1600 ms - all must give Err. (c) N simultaneous sends through one client (8 quick / 32 thorough), responses echo the request-id. Non-trivial = chunked or close-delimited framing, >=3 write fragments, payload >= 64 KiB, or a failure/concurrency script; distinct by script hash.");
+    ctx.set_rule("(a) proptest-generated exchanges against a hand-written loopback HTTP/1.1 server: request (generated model message + payload 0 B-256 KiB, MiB in the big sub-run, from a fragmented blocking or async source) x client configuration (0-4 custom x- headers, optional Basic credentials incl. non-ASCII and ':' in the password, optional timeout) x ipp:// or http:// target with generated path/query x blocking or async client x server script (content-length / chunked with generated chunk sizes / close-delimited framing, generated write fragmentation, generated response + trailing data encoded by the reference encoder; in the big sub-run the trailing data exceeds 1 MiB too). Oracle: the server recorded exactly one POST with the expected request-target, Host, Content-Type, every custom header, Authorization (own base64) and a de-framed body equal to to_bytes() ++ payload; the client returned exactly the server's response and trailing data. (b) failure scripts: every 4xx/5xx status with a valid success response as body, connection cut after every k in [0,L) body bytes under each framing with FIN and RST, stalled server with a 400 ms timeout answering after 1600 ms - all must give Err. (c) N simultaneous sends through one client (8 quick / 32 thorough), responses echo the request-id. Non-trivial = chunked or close-delimited framing, >=3 write fragments, payload >= 64 KiB, or a failure/concurrency script; distinct by script hash.");
     ctx.assume("TCP may coalesce the server's write fragments; the timeout sub-check uses wall-clock with x4 margin (Ok after the stall is the only violation)");
     let (shards, per) = ctx.tier.pick((16, 60), (16, 1500));
     run_prop(ctx, "exchange", shards, per, || exchange(false), judge_exchange, ex_json);
